@@ -38,6 +38,7 @@ type Token struct {
 // grammar does not define (invalid UTF-8, surrogate escapes): nothing is judged for them
 // beyond crash-freedom.
 type Error struct {
+	From        int // start of the malformed lexeme (== Pos unless the error is inside a string or number)
 	Pos         int // byte offset of the offending character / token
 	End         int // end of the offending token (for "location within the token")
 	Msg         string
@@ -104,15 +105,26 @@ func lexOne(src []byte, i int) (Token, *Error) {
 		}
 		return Token{Kind: Name, Text: string(src[i:j]), Start: i, End: j}, nil
 	case c == '-' || isDigit(c):
-		return lexNumber(src, i)
-	case c == '"':
-		if i+2 < n && src[i+1] == '"' && src[i+2] == '"' {
-			return lexBlockString(src, i)
+		t, err := lexNumber(src, i)
+		if err != nil {
+			err.From = i
 		}
-		return lexString(src, i)
+		return t, err
+	case c == '"':
+		var t Token
+		var err *Error
+		if i+2 < n && src[i+1] == '"' && src[i+2] == '"' {
+			t, err = lexBlockString(src, i)
+		} else {
+			t, err = lexString(src, i)
+		}
+		if err != nil {
+			err.From = i
+		}
+		return t, err
 	}
 	_, w := utf8.DecodeRune(src[i:])
-	return Token{}, &Error{Pos: i, End: i + w, Msg: "unexpected character"}
+	return Token{}, &Error{From: i, Pos: i, End: i + w, Msg: "unexpected character"}
 }
 
 // Lex tokenizes the whole input (the EOF token is included).
@@ -125,7 +137,7 @@ func Lex(src []byte) ([]Token, *Error) {
 	for {
 		var err *Error
 		if i, _, err = skipIgnored(src, i); err != nil {
-			return nil, err
+			return toks, err
 		}
 		if i >= len(src) {
 			toks = append(toks, Token{Kind: EOF, Start: len(src), End: len(src)})
@@ -133,7 +145,7 @@ func Lex(src []byte) ([]Token, *Error) {
 		}
 		t, err := lexOne(src, i)
 		if err != nil {
-			return nil, err
+			return toks, err
 		}
 		toks = append(toks, t)
 		i = t.End
@@ -153,7 +165,7 @@ func LexEmuRuneNames(src []byte) ([]Token, *Error) {
 	for steps := 0; steps < 4*len(src)+8; steps++ {
 		i, runes, err := skipIgnored(src, resume)
 		if err != nil {
-			return nil, err
+			return toks, err
 		}
 		if i >= len(src) {
 			toks = append(toks, Token{Kind: EOF, Start: i, End: i})
@@ -161,7 +173,7 @@ func LexEmuRuneNames(src []byte) ([]Token, *Error) {
 		}
 		t, err := lexOne(src, i)
 		if err != nil {
-			return nil, err
+			return toks, err
 		}
 		if t.Kind == Name {
 			rs := resume + runes
